@@ -28,6 +28,12 @@ Structures covered, each with a summary theorem for every argument and both mode
   * the bit primitives, the plain bitvector with its rank / select supports, `OneIter<T>`, the two-cursor
     iterators, the integer vector's item access, the memory-mapped views' constructors —
     `plain_bitvector_api_no_oob_partial`;
+  * the SAFE `Transformation::word` of the public trait (`Identity`: checked read; `Complement`: checked read from
+    the last word index on, unchecked strictly below it) for every well-formed vector and EVERY index —
+    `transformation_word_never_oob`, `transformation_word_in_range_value`; the guard is needed as written —
+    `transformation_word_weakened_guard_reads_out_of_bounds`; the safe entry points of the support structures
+    (`RankSupport::rank`, `SelectSupport::select`: bounds-checked accessors, modelled by `safely`) —
+    `safe_support_entry_points_never_oob`;
   * the sparse (Elias–Fano) vector — `sparse_api_no_oob_partial` (every vector satisfying the encoding relation:
     built or loaded; set mode) and `sparse_multiset_api_no_oob_partial`; the builder:
     `sparse_builder_never_oob`;
@@ -69,6 +75,7 @@ import Sds.Proofs.IntVec
 import Sds.Proofs.Glue
 import Sds.Proofs.Glue2
 import Sds.Proofs.Glue5
+import Sds.Proofs.SafeApi
 
 namespace Sds.C08
 open Sds Outcome IterProofs
@@ -181,6 +188,47 @@ theorem select_never_oob (b : BitVector) (v : RawVec) (tr : Tr) (hv : v.WF) (hle
     · right
       unfold BitVector.selectT
       rw [if_neg hr, hsu]
+
+/-! ### the safe `Transformation::word`; the safe entry points of the support structures -/
+
+/-- `Transformation::word(parent, index)` of the public trait (`Identity`, `Complement`), EVERY well-formed vector
+and EVERY index: never an out-of-bounds read.  In range (`64 * i < len`, i.e. `i < words`) it returns; from
+`i ≥ words` on it is the index panic of the bounds-checked `RawVector::word` — for `Complement` too, whose unchecked
+read sits in the branch `index < len / 64` only -/
+theorem transformation_word_never_oob (tr : Tr) (v : RawVec) (hv : v.WF) (i : Nat) :
+    wordSafeT tr v i ≠ fault .oob ∧
+    ((64 * i < v.len ∧ ∃ w, wordSafeT tr v i = ok w) ∨
+     (v.len ≤ 64 * i ∧ wordSafeT tr v i = fault (.panic .index))) ∧
+    (v.data.size ≤ i → wordSafeT tr v i = fault (.panic .index)) := by
+  refine ⟨SafeApi.wordSafeT_ne_oob hv tr i, ?_, SafeApi.wordSafeT_panic hv tr i⟩
+  rcases SafeApi.wordSafeT_cases hv tr i with ⟨h1, h2⟩ | ⟨h1, h2⟩
+  · exact .inl ⟨h1, _, h2⟩
+  · exact .inr ⟨h1, h2⟩
+
+/-- … and in range it is the same computation as `word_unchecked` (`wordT`), returning the word whose bit `k` is bit
+`64 * i + k` of the transformed bit sequence where that position exists, and 0 from `len` on -/
+theorem transformation_word_in_range_value (tr : Tr) (v : RawVec) (hv : v.WF) (i : Nat) (hi : 64 * i < v.len) :
+    wordSafeT tr v i = wordT tr v i ∧
+    ∃ w, wordSafeT tr v i = ok w ∧ ∀ k, k < 64 →
+      (64 * i + k < v.len → (bitsT tr v.bits)[64 * i + k]? = some (w.getLsbD k)) ∧
+      (v.len ≤ 64 * i + k → w.getLsbD k = false) :=
+  SafeApi.wordSafeT_in_range hv tr i hi
+
+/-- (documentation) the guard must be `index >= last_index`: with `index == last_index`
+(`SafeApi.wordSafeTEq`) the call `Complement::word(v, 2)` on the well-formed 70-bit vector `SafeApi.cexVec` (two
+words, `last_index = 1`) reaches the unchecked read with an index past the buffer; the code as written panics -/
+theorem transformation_word_weakened_guard_reads_out_of_bounds :
+    SafeApi.cexVec.WF ∧ SafeApi.cexVec.len = 70 ∧ SafeApi.cexVec.data.size = 2 ∧
+    SafeApi.wordSafeTEq .compl SafeApi.cexVec 2 = fault .oob ∧
+    wordSafeT .compl SafeApi.cexVec 2 = fault (.panic .index) :=
+  ⟨SafeApi.wordSafeTEq_oob.1, rfl, rfl, SafeApi.wordSafeTEq_oob.2.1, SafeApi.wordSafeTEq_oob.2.2⟩
+
+/-- the safe entry points `RankSupport::rank` / `SelectSupport::select` (`safely`: the computation of the unchecked
+variants through bounds-checked accessors) never yield `oob`, whatever the unchecked computation does, and change no
+other outcome.  (True by construction of `safely`; that the Rust entry points are this function is correspondence.) -/
+theorem safe_support_entry_points_never_oob {α} (x : Outcome α) :
+    safely x ≠ fault .oob ∧ (x ≠ fault .oob → safely x = x) ∧ (x = fault .oob → safely x = fault (.panic .index)) :=
+  ⟨SafeApi.safely_ne_oob x, SafeApi.safely_eq x, fun h => by rw [h]; rfl⟩
 
 /-! ### get, integer-vector items -/
 
